@@ -161,7 +161,7 @@ def ensure_process():
     T.install()
     L = world.load()
     if _TMP_PID != os.getpid():
-        root = _ROOT or tempfile.mkdtemp(prefix="verif-c11-", dir="/var/tmp")
+        root = _ROOT or tempfile.mkdtemp(prefix="verif-c11-", dir=os.environ.get("VERIF_RUN_TMP") or "/var/tmp")
         L.common._TEMP_DIR = tempfile.mkdtemp(prefix=f"lib-{os.getpid()}-", dir=root)
         world.adopt(L.common, "_TEMP_DIR")
         _TMP_PID = os.getpid()
@@ -1557,7 +1557,7 @@ def _prepare():
     K.files()
     _PORT = K.start_server()
     if _ROOT is None:
-        _ROOT = tempfile.mkdtemp(prefix="verif-c11-", dir="/var/tmp")
+        _ROOT = tempfile.mkdtemp(prefix="verif-c11-", dir=os.environ.get("VERIF_RUN_TMP") or "/var/tmp")
         import atexit
 
         pid = os.getpid()
